@@ -521,10 +521,40 @@ def unjson(x):
     return x
 
 
+def conforms(t, v):
+    """does the concrete value v belong to the input type t (bounds of the declared input types are part of the precondition)"""
+    vs = t.variants()
+    if len(vs) > 1 or vs[0] is not t:
+        return any(conforms(x, v) for x in vs)
+    if isinstance(t, TInt):
+        return isinstance(v, int) and not isinstance(v, bool) and (t.lo is None or v >= t.lo) and (t.hi is None or v <= t.hi)
+    if isinstance(t, TBool):
+        return isinstance(v, bool)
+    if isinstance(t, TBytes):
+        return isinstance(v, (bytes, bytearray)) and (t.length is None or len(v) == t.length) and \
+            (t.maxlen is None or len(v) <= t.maxlen) and (t.minlen is None or len(v) >= t.minlen)
+    if isinstance(t, TStr):
+        return isinstance(v, str) and (t.maxlen is None or len(v) <= t.maxlen)
+    if isinstance(t, TNone):
+        return v is None
+    if isinstance(t, TConst):
+        return v == t.obj
+    if isinstance(t, TTuple):
+        return isinstance(v, tuple) and len(v) == len(t.ts) and all(conforms(a, b) for a, b in zip(t.ts, v))
+    if isinstance(t, TList):
+        return isinstance(v, list) and (t.n is None or len(v) == t.n) and all(conforms(t.elem, x) for x in v)
+    if isinstance(t, TDict):
+        return isinstance(v, dict) and all(k in v and conforms(tt, v[k]) for k, tt in t.fields.items())
+    return True
+
+
 def run_native(p, inputs):
     """Run proof p on concrete inputs with CPython.  Returns (status, detail):
     'skip' (precondition false), 'ok', or 'violation' with the failed clause names."""
     import copy
+    for k, t in p.inputs.items():
+        if k in inputs and not conforms(t, inputs[k]):
+            return 'skip', f"input {k} outside its declared type"
     try:
         if p.requires is not None and not p.requires(**_subset(p.requires, copy.deepcopy(inputs))):
             return 'skip', None
